@@ -188,6 +188,17 @@ def reversePath (o : Offender) : Step (RevPath × Bool) :=
             | .ok rb' => .ok (⟨rb', rinfos, rhops⟩, peering)
           else .ok (⟨rb, rinfos, rhops⟩, peering)
 
+/-- `if infoField.ConsDir && !peering { infoField.UpdateSegID(hopField.Mac) }` -/
+def updSegID (rp : RevPath) (inf : InfoF) (peering : Bool) : Step (List InfoF) :=
+  if inf.consDir && !peering then
+    match rp.hops[rp.b.pm.currHF]? with
+    | none => .panic "HopFields[CurrHF]"
+    | some hop =>
+      match be16 (hop.drop 6) with
+      | none => .panic "hop.Mac[:2]"
+      | some m => .ok (rp.infos.set rp.b.pm.currINF { inf with segID := inf.segID ^^^ m })
+  else .ok rp.infos
+
 /-- `if p.pkt.Link.Scope() == External { UpdateSegID; IncPath }` -/
 def externalStep (scope : Scope) (rp : RevPath) (peering : Bool) : Step RevPath :=
   if scope ≠ Scope.ext then .ok rp
@@ -195,16 +206,7 @@ def externalStep (scope : Scope) (rp : RevPath) (peering : Bool) : Step RevPath 
     match rp.infos[rp.b.pm.currINF]? with
     | none => .panic "InfoFields[CurrINF]"
     | some inf =>
-      let upd : Step (List InfoF) :=
-        if inf.consDir && !peering then
-          match rp.hops[rp.b.pm.currHF]? with
-          | none => .panic "HopFields[CurrHF]"
-          | some hop =>
-            match be16 (hop.drop 6) with
-            | none => .panic "hop.Mac[:2]"
-            | some m => .ok (rp.infos.set rp.b.pm.currINF { inf with segID := inf.segID ^^^ m })
-        else .ok rp.infos
-      match upd with
+      match updSegID rp inf peering with
       | .panic w => .panic w
       | .drop w => .drop w
       | .ok infos' =>
